@@ -78,6 +78,11 @@ func runOne(spec RunSpec) *RunResult {
 		w.Family = spec.Family
 		fam(w)
 	})
+	for i, n := range flushProbe {
+		if n > 0 {
+			w.Probes[fmt.Sprintf("write.explicit-flush(%d more back to back)", i)] += n
+		}
+	}
 	res := &RunResult{Family: spec.Family, Seed: spec.Seed, Case: spec.Case, Violations: w.Viol, Panics: s.Panics, MainDone: out.MainDone, Deadlock: out.Deadlock,
 		Steps: s.Steps, Switches: s.Switches, Preempts: s.Preempts, Stalls: s.Stalls, SimNs: int64(out.SimTime), FP: fmt.Sprintf("%016x", s.FP),
 		Goroutines: s.NumGoroutines(), Fired: w.Net.Fired, Probes: w.Probes, Evals: w.Evals, Sample: w.Sample, Diverged: s.Diverged()}
@@ -216,16 +221,18 @@ func (w *World) drawSchedule(allowStall bool) {
 func (w *World) tasks(fs ...func()) {
 	done := 0
 	var q simrt.WaitQueue
+	var join uint64 // race builds: the application joins its goroutines (as with a WaitGroup)
 	for i, f := range fs {
 		f := f
 		simrt.Go(fmt.Sprintf("h/task:%d", i), func() {
-			defer func() { done++; q.WakeAll() }()
+			defer func() { simrt.HBRelease(&join); done++; q.WakeAll() }()
 			f()
 		})
 	}
 	for done < len(fs) {
 		q.Wait("tasks")
 	}
+	simrt.HBAcquire(&join)
 }
 
 // sleep advances simulated time for the calling task.
